@@ -77,7 +77,7 @@ impl Space for Coords {
     }
 }
 
-const THOROUGH_RULE: &str = " THOROUGH TIER BOUNDS (supersede the thorough remarks above). WDT versions Classic..Dragonflight (10); (version, MAID mode) = 31: 10 without MAID + {BfA, Shadowlands, Dragonflight} x 7 modes (8 sections+flag+header ids / 5 / 8 without flag / flag without chunk / 0 sections / 1 section / 9 sections). Object shapes = full product map type {terrain, WMO-only} x MWMO {absent,0,1,3 names} x MODF {absent,0,1,3 records} (32; the first 8 are the quick shapes). wdt_main = block 1: 31 x 8 quick shapes x 109 flag sets (none, 14 single bits, all, 2 alternating, 91 bit pairs) x 2 value modes x 14 grids; block 2: 31 x the 24 other shapes x 18 non-pair flag sets x 2 x 14. wdt_single = 4096 single tiles x 31 x 4 shapes. wdt_flags = all 65536 MPHD words x 10 versions x every MAID mode consistent with bit 0x200 (BfA: 2 modes when clear, 6 when set; other versions 1) x 2 object shapes consistent with bit 0. wdt_objects = 11 (version, MAID) x {terrain, WMO-only} x 19 name-list shapes (absent; 0; 1 name of 1/2/255/256/257/65535/65536/70001 bytes; 2; 3; 255/256/257/1000/4096/65536 names; duplicates) x 13 MODF counts (absent,0,1,2,3,255,256,257,1023,1024,1025,4096,65536). wdt_conv = 22 sources (10 versions + 3 MAID versions x 4 MAID modes) x 10 targets x [block 1: 8 shapes x 4 flag sets x 2 x 14 grids; block 2: 4 shapes x 128 flag sets (all subsets of the 6 bits the converter adds/removes x other bits all clear/all set) x 2 x 2 grids]; MAID ids must also survive between any two MAID versions. wdt_chain = 13 sources x 10 intermediate x 10 target versions x 8 shapes x 4 flag sets x 2 x 4 grids: build->write->read->convert->write->read->convert; MAIN entries (and MAID ids on all-MAID paths) equal the source after every step, every intermediate state round-trips, result agrees with the direct conversion in MAIN entries. Every WDT round trip also compares get_tile (flags, area id, has_adt) for all 4096 tiles and count_existing_tiles before write / after read. WDL versions Vanilla..Dragonflight + Latest (10). Model shapes: pre-Legion full product names {1,3} x MWID entries {0,n,n+2} x MODF {0,1,3} + empty (19); Legion+ full product {0,1,3}^4 of MLDD/MLDX/MLMD/MLMX record counts (81). wdl_main = 10 versions x 3 height modes x 4 hole modes x (11 sparse grids x full shape product + 3 dense grids x 6 quick shapes). wdl_single = 4096 tiles x 10 versions x 3 hole modes x 3 shapes. wdl_pairs = first tile from the corners + 16x16 asymmetric lattice + lattice (x+3y)%8==5 (about 770) x each of the 4095 other tiles, version Wotlk..Latest by first tile (8 cases per first tile). wdl_subsets = every state of a 9-tile universe (corners, 3 adjacent, 2 far; each tile absent / heights / heights+holes: 3^9, 2^9 in Vanilla) x 10 versions x 2 shapes. wdl_models = Legion+ (5 versions): record counts {0,1,2,3,255,256,257,1024}^4; pre-Legion (4 versions): 17 name-list shapes (as in wdt_objects) x MWID entries {0,n,n+1,1000} x MODF counts {0,1,2,3,255,256,257,1024,4096}; two tiles behind the lists. wdl_conv = 10x10 version pairs x 4 hole modes x (5 sparse grids x full shape product + 6 sparse grids x 6 quick shapes) + 3 dense grids x 2 shapes x 2 hole modes. wdl_chain = 10^3 version triples x 6 shapes x 4 hole modes x 3 grids (+ the 585-tile grid without models): build->write->parse->convert->write->parse->convert; heights (and hole masks on all-MAHO paths) equal the source after every step, every intermediate state round-trips, result agrees with the direct conversion in heights and (no record = no holes) hole masks, A->B->A returns the source tile data. Every WDL round trip also checks that no foreign chunk is written, one MAHO per tile with hole data, and that the parsed map_tile_offsets equal the MAOF table in the bytes. coords: additionally the 15x15 interior lattice points k/16 of every tile map back to that tile.";
+const THOROUGH_RULE: &str = " THOROUGH TIER BOUNDS (supersede the thorough remarks above). WDT versions Classic..Dragonflight (10); (version, MAID mode) = 31: 10 without MAID + {BfA, Shadowlands, Dragonflight} x 7 modes (8 sections+flag+header ids / 5 / 8 without flag / flag without chunk / 0 sections / 1 section / 9 sections). Object shapes = full product map type {terrain, WMO-only} x MWMO {absent,0,1,3 names} x MODF {absent,0,1,3 records} (32; the first 8 are the quick shapes). wdt_main = block 1: 31 x 8 quick shapes x 109 flag sets (none, 14 single bits, all, 2 alternating, 91 bit pairs) x 2 value modes x 14 grids; block 2: 31 x the 24 other shapes x 18 non-pair flag sets x 2 x 14. wdt_single = 4096 single tiles x 31 x 4 shapes. wdt_flags = all 65536 MPHD words x 10 versions x every MAID mode consistent with bit 0x200 (BfA: 2 modes when clear, 6 when set; other versions 1) x 4 object shapes consistent with bit 0. wdt_objects = 11 (version, MAID) x {terrain, WMO-only} x 19 name-list shapes (absent; 0; 1 name of 1/2/255/256/257/65535/65536/70001 bytes; 2; 3; 255/256/257/1000/4096/65536 names; duplicates) x 13 MODF counts (absent,0,1,2,3,255,256,257,1023,1024,1025,4096,65536). wdt_conv = 22 sources (10 versions + 3 MAID versions x 4 MAID modes) x 10 targets x [block 1: all 32 shapes x 4 flag sets x 2 x 14 grids; block 2: 4 shapes x 128 flag sets (all subsets of the 6 bits the converter adds/removes x other bits all clear/all set) x 2 x 2 grids]; MAID ids must also survive between any two MAID versions. wdt_chain = 13 sources x 10 intermediate x 10 target versions x 8 shapes x 4 flag sets x 2 x 4 grids: build->write->read->convert->write->read->convert; MAIN entries (and MAID ids on all-MAID paths) equal the source after every step, every intermediate state round-trips, result agrees with the direct conversion in MAIN entries. Every WDT round trip also compares get_tile (flags, area id, has_adt) for all 4096 tiles and count_existing_tiles before write / after read. WDL versions Vanilla..Dragonflight + Latest (10). Model shapes: pre-Legion full product names {1,3} x MWID entries {0,n,n+2} x MODF {0,1,3} + empty (19); Legion+ full product {0,1,3}^4 of MLDD/MLDX/MLMD/MLMX record counts (81). wdl_main = 10 versions x 3 height modes x 4 hole modes x (11 sparse grids x full shape product + 3 dense grids x 6 quick shapes). wdl_single = 4096 tiles x 10 versions x 3 hole modes x 6 shapes. wdl_pairs = first tile from the corners + 16x16 asymmetric lattice + lattice (x+3y)%8==5 (about 770) x each of the 4095 other tiles, version Wotlk..Latest by first tile (8 cases per first tile). wdl_subsets = every state of a 9-tile universe (corners, 3 adjacent, 2 far; each tile absent / heights / heights+holes: 3^9, 2^9 in Vanilla) x 10 versions x 2 shapes. wdl_models = Legion+ (5 versions): record counts {0,1,2,3,255,256,257,1024}^4; pre-Legion (4 versions): 17 name-list shapes (as in wdt_objects) x MWID entries {0,n,n+1,1000} x MODF counts {0,1,2,3,255,256,257,1024,4096}; two tiles behind the lists. wdl_conv = 10x10 version pairs x 4 hole modes x (5 sparse grids x full shape product + 6 sparse grids x 6 quick shapes) + 3 dense grids x 2 shapes x 2 hole modes. wdl_chain = 10^3 version triples x 6 shapes x 4 hole modes x 3 grids (+ the 585-tile grid without models): build->write->parse->convert->write->parse->convert; heights (and hole masks on all-MAHO paths) equal the source after every step, every intermediate state round-trips, result agrees with the direct conversion in heights and (no record = no holes) hole masks, A->B->A returns the source tile data. Every WDL round trip also checks that no foreign chunk is written, one MAHO per tile with hole data, and that the parsed map_tile_offsets equal the MAOF table in the bytes. coords: additionally the 15x15 interior lattice points k/16 of every tile map back to that tile.";
 
 fn build(name: &str, _arg: &str, tier: Tier) -> Box<dyn Space> {
     match name {
@@ -198,17 +198,17 @@ fn main() {
             ("wdt_main_block1", json!({"version_x_maid": 31, "object_shapes": 8, "flag_sets": 109, "value_modes": 2, "grids": 14})),
             ("wdt_main_block2", json!({"version_x_maid": 31, "object_shapes": 24, "flag_sets": 18, "value_modes": 2, "grids": 14})),
             ("wdt_single", json!({"tiles": 4096, "version_x_maid": 31, "object_shapes": 4})),
-            ("wdt_flags", json!({"flag_words": 65536, "versions": 10, "version_x_maid_per_word_bit9_clear": 11, "version_x_maid_per_word_bit9_set": 15, "object_shapes_per_word": 2})),
+            ("wdt_flags", json!({"flag_words": 65536, "versions": 10, "version_x_maid_per_word_bit9_clear": 11, "version_x_maid_per_word_bit9_set": 15, "object_shapes_per_word": 4})),
             ("wdt_conv_version_pairs", json!(100)),
             ("wdt_conv_sources", json!(22)),
-            ("wdt_conv_block1", json!({"sources": 22, "targets": 10, "object_shapes": 8, "flag_sets": 4, "value_modes": 2, "grids": 14})),
+            ("wdt_conv_block1", json!({"sources": 22, "targets": 10, "object_shapes": 32, "flag_sets": 4, "value_modes": 2, "grids": 14})),
             ("wdt_conv_block2", json!({"sources": 22, "targets": 10, "object_shapes": 4, "flag_sets": wdt::conv_flagsets().len(), "value_modes": 2, "grids": 2})),
             ("wdt_chain", json!({"sources": 13, "via": 10, "targets": 10, "object_shapes": 8, "flag_sets": 4, "value_modes": 2, "grids": 4})),
             ("wdt_objects", json!({"version_x_maid": 11, "map_types": 2, "name_list_shapes": wdt::NAME_SHAPES.len(), "modf_record_counts": wdt::MODF_COUNTS.len()})),
             ("wdl_versions", json!(wdl::NV)),
             ("wdl_model_shapes", json!({"pre_legion_names_x_mwid_x_modf": wdl::wmo_shapes().len(), "legion_plus_mldd_x_mldx_x_mlmd_x_mlmx": wdl::ml_shapes().len()})),
             ("wdl_main", json!({"versions": 10, "sparse_grids": 11, "dense_grids": 3, "height_modes": 3, "hole_modes": 4, "shapes_on_sparse_grids": "19 / 81", "shapes_on_dense_grids": 6})),
-            ("wdl_single", json!({"tiles": 4096, "versions": 10, "hole_modes": 3, "shapes": 3})),
+            ("wdl_single", json!({"tiles": 4096, "versions": 10, "hole_modes": 3, "shapes": 6})),
             ("wdl_pairs_first_tiles", json!(wdl::WdlPairs::new(tier).first_count())),
             ("wdl_pairs_versions", json!(9)),
             ("wdl_subsets", json!({"universe_tiles": wdl::UNIVERSE.len(), "states_per_tile": 3, "states": 19683, "versions": 10, "shapes": 2})),
